@@ -66,6 +66,11 @@ CHECKS = {
          "spec/HostLine.tla defines the rule a hosts line yields (address, listed names, family group, name matching) and checks that comment, separators and trailing blanks are inert; TLC enumerates every abstract line (up to 2 names quick / 3 thorough from a 4-name pool) and each is rendered in several spellings and checked through NewRule, NewHostRule and DNSEngine.Match (listed names in the right IPv4/IPv6 group; names one character shorter or longer not found).",
          "Trusted: TLC, the table from abstract line parts to text. Comment text avoids cosmetic markers (outside the contract).",
          "6/C18"),
+ "C20": ("model_checking",
+         "TLC enumeration of segment-encoded bodies around the 16 KiB boundary with the TLA+ injection-offset meaning; byte-exact replay through filterHTML (plain and gzip) via the verif hook",
+         "spec/Proxy.tla models a body as segments with real integer lengths and defines the inspected prefix (16 KiB of the Latin-1 -> UTF-8 transcoding), the first in-window marker and the resulting insertion offset; TLC enumerates fillers of ASCII/high/NUL bytes, near-markers, the four markers in three letter cases, at every offset from 16384-9 to 16384+1 of both the original and the transcoded text, with second markers and marker-free bodies, and checks FirstMarker; the harness renders the bytes, sends them plain and gzip-encoded through the real filterHTML and compares output bytes, declared length and encoding header.",
+         "Trusted: TLC, the byte renderer, compress/gzip. In the ambiguous zone (marker within 16 KiB of the original but beyond 16 KiB of the transcoding) either outcome is accepted; byte preservation and length are always required.",
+         "6/C20"),
 }
 
 NOT_YET = "check not built yet in this session (see DESIGN.md section 6 for the planned TLA+ decision procedure)"
